@@ -117,6 +117,7 @@ impl Check for C01 {
                 events.push(Event { actor: 1, op: Op::Execute { lang, text }, clock });
             }
         }
+        crate::gen::session_variants(&mut r, &mut events, 3, 6);
         Trace { check: "C01".into(), seed, host_tz: env.host_tz.clone(), salt: 0, mode: "mixed".into(), events }
     }
 
@@ -142,7 +143,27 @@ impl Check for C01 {
                         rep.violate("O-total", format!("admin-{}", p.key()), ei, format!("configuration call {:?} panicked: {} at {}", op, p.msg, p.loc));
                     }
                 }
-                Op::Checkpoint { .. } => {}
+                Op::Checkpoint { .. } | Op::Nested { .. } => {}
+                Op::SessionLang { lang } => {
+                    if w.sessions.contains_key(&ev.actor) { w.session_set_language(ev.actor, lang); session_lang = lang.clone(); rep.count("session.language_switch"); }
+                }
+                Op::SessionRerun => {
+                    // the session is evaluated once more without a new text: a one-line text yields its one slot again
+                    if last_slots != Some(1) || !w.sessions.contains_key(&ev.actor) { continue; }
+                    let (o, clk) = w.session_rerun(ev.actor, &ev.clock);
+                    rep.evaluations += 1;
+                    rep.clock_reads += clk.values.len() as u64;
+                    rep.mix_obs(&o.short());
+                    rep.judged += 1;
+                    rep.count("session.rerun_without_new_text");
+                    match &o {
+                        CallObs::Unwound(p) => rep.violate("O-total", p.key(), ei, format!("evaluating the session again without a new text panicked: {} at {} in {}", p.msg, p.loc, p.func)),
+                        CallObs::Returned { status, lines } => {
+                            if !*status { rep.violate("O-total", "status-false:session-rerun".into(), ei, "evaluating a one-line session again returned status=false".into()); }
+                            else if lines.len() != 1 { rep.violate("O-total", "slot-count:session-rerun".into(), ei, format!("evaluating a one-line session again gave {} slots", lines.len())); }
+                        }
+                    }
+                }
                 Op::SessionNew { lang } => {
                     if w.sessions.contains_key(&ev.actor) { rep.count("session.drop_recreate"); }
                     w.session_new(ev.actor, lang);
